@@ -55,6 +55,22 @@ def evaluate(case):
         return "decomposition: radii not recovered ascending"
     if np.any(np.diff(radii) <= 0):
         return "radii of the grid are not ascending"
+    # the same object and the same array asked again (consumers such as the assignment tool decompose the array they were handed and
+    # keep using both the array and the grid): a later request of the array still has the rows of the first one, and decomposing the
+    # array a second time still returns the generating grids
+    with quiet():
+        arr_again = fg.get_full_grid_as_array()
+        o3, b3, t3 = from_full_array_to_o_b_t(arr)
+        o4, b4, t4 = from_full_array_to_o_b_t(arr_again)
+    for r in range(n):
+        p, q = divmod(r, n_b)
+        exp = np.concatenate([O[p % n_o] * radii[p // n_o], Q[q]])
+        if not np.allclose(arr_again[r], exp, rtol=1e-12, atol=1e-12):
+            return f"array requested again after a decomposition: row {r} is not (position {p}, rotation {q})"
+    for tag, (oo, bb, tt) in (("second decomposition of the same array", (o3, b3, t3)), ("decomposition of the array requested again", (o4, b4, t4))):
+        if not (oo.shape == O.shape and np.allclose(oo, O, atol=1e-7) and bb.shape == Q.shape and np.allclose(bb, Q, atol=1e-7)
+                and tt.shape == radii.shape and np.allclose(tt, radii, atol=1e-6)):
+            return f"{tag}: generating grids not recovered"
     return None
 
 
